@@ -1025,6 +1025,27 @@ theorem closed_step_partial (s : Store) (op : Op) (h : Inv s) (hv : valid s op =
   | dsunify d n => simp [covered] at hc
   | dsread d taxa rows trees => simp [covered] at hc
   | taadd n t => simp only [step]; exact h
+  | newtreeseed l t =>
+    simp only [inRange, decide_eq_true_eq] at hr
+    simp only [step]
+    have g : Grows s (addTaxa s (s.tl l).ns (s.tree t).taxa) := grows_addAll _ _ s
+    have i := inv_allocTree (inv_grows g h) { ns := (s.tl l).ns, taxa := (s.tree t).taxa }
+      (fun x hx => mem_addAll (s.tl l).ns (s.tree t).taxa s x hx)
+    apply inv_appendNew h i (g.cframe.trans (cframe_allocTree _ _)) l hr
+    intro t' ht'; simp at ht'; subst ht'
+    simp [allocTree, upd]
+  | treeseed n t =>
+    cases n with
+    | some n =>
+      simp only [step]
+      have g : Grows s (addTaxa s n (s.tree t).taxa) := grows_addAll _ _ s
+      exact inv_allocTree (inv_grows g h) { ns := n, taxa := (s.tree t).taxa } (fun x hx => mem_addAll n (s.tree t).taxa s x hx)
+    | none =>
+      simp only [step]
+      have g0 := grows_newNs s false
+      have g : Grows (newNs s false).1 (addTaxa (newNs s false).1 (newNs s false).2 (s.tree t).taxa) := grows_addAll _ _ _
+      exact inv_allocTree (inv_grows g (inv_grows g0 h)) { ns := (newNs s false).2, taxa := (s.tree t).taxa }
+        (fun x hx => mem_addAll (newNs s false).2 (s.tree t).taxa (newNs s false).1 x hx)
 
 /-- a history all of whose steps are in the domain and covered -/
 def validRun (s : Store) : List Op → Bool
